@@ -52,12 +52,16 @@ ASSUMPTIONS = [
     "the optimal coefficients do not sum to zero (the formulas divide by both)",
     "train_sa: the refinement decisions come from the library's own ErrorCalculatorSingleDimVolumeGuided (train_spatially_adaptive "
     "creates it internally); the non-uniform grids it does not reach are covered by dimwise_direct",
+    "targets are mostly >= -1: a target below -1 is rejected at construction (F-C20h), such cases (about one in ten) only "
+    "exercise that clause; all tutorial data sets have targets >= 0",
+    "uniform_direct / dimwise_direct follow the protocol of test/test_Regression.py (training set := scaled data set, "
+    "grid.numPoints set by the caller, methods called directly)",
 ]
 
 LAMBDAS = [0.0, 1e-6, 1e-4, 0.1, 1.0]
 TOL_MAT = 1e-9      # relative to max|entry| of the reference; rounding seen: 1e-15; smallest defect entries: O(0.1)
 TOL_A = 1e-12       # absolute, hat values are in [0,1]; rounding seen: 2e-16
-TOL_NE = 1e-8       # backward-error style residual; rounding seen: <=1e-13; defects: >=1e-5 (lambda=1e-6 * O(1) entries ... see below)
+TOL_NE = 1e-8       # backward-error style residual; rounding seen on the unchanged tree: <=2e-14; mutants/defects: >=1e-4
 TOL_SUM = 1e-9
 
 CAUSE_B = "mass-factor-uses-level-of-stiffness-dimension"          # F-C20b
@@ -506,6 +510,8 @@ def run_dimwise_direct(case):
             "non-uniform" if nonuni else "uniform")
     if any(len(n) >= 5 for n in nodes):
         out.cls("has-touching-supports")
+    if len(A_cands) > 1:
+        out.cls("sample-within-rounding-below-node")
     if causes:
         out.cls("gram-known-defect")
     out.info.update(max_basis=A_ref.shape[1], max_dim=case["d"])
@@ -696,8 +702,8 @@ def _data(draw, d, nmin=5, nmax=40, targets=True):
     aff = [[draw(st.sampled_from([0.0, -1.0, 2.5, 10.0])), draw(st.sampled_from([1.0, 0.5, 4.0, 100.0]))] for _ in range(d)]
     res = dict(d=d, pts=pts, aff=aff, pin=draw(st.booleans()))
     if targets:
-        # one case in six has targets below -1 (rejected at construction, F-C20h); the callers only use targets >= 0
-        lo = draw(st.sampled_from([-8, -8, -8, -8, -8, -80]))
+        # one case in ten may have targets below -1 (rejected at construction, F-C20h); the callers only use targets >= 0
+        lo = draw(st.sampled_from([-8] * 9 + [-80]))
         res["y"] = [v / 8.0 for v in draw(st.lists(st.integers(lo, 400), min_size=n, max_size=n))]
     return res
 
@@ -897,14 +903,15 @@ def selftest():
 
 
 SUBS = [
-    Sub("uniform_direct", uniform_direct_strategy, run_uniform_direct, dict(quick=1600, thorough=20000),
-        budget_s=dict(quick=30, thorough=400), fixed_cases=uniform_direct_fixed),
-    Sub("dimwise_direct", dimwise_direct_strategy, run_dimwise_direct, dict(quick=1600, thorough=20000),
-        budget_s=dict(quick=30, thorough=400), fixed_cases=dimwise_direct_fixed),
-    Sub("train", train_strategy, run_train, dict(quick=1600, thorough=20000),
-        budget_s=dict(quick=30, thorough=400), fixed_cases=train_fixed),
-    Sub("train_sa", train_sa_strategy, run_train_sa, dict(quick=800, thorough=8000),
-        budget_s=dict(quick=40, thorough=500), fixed_cases=train_sa_fixed),
-    Sub("opticom", opticom_strategy, run_opticom, dict(quick=800, thorough=8000),
-        budget_s=dict(quick=40, thorough=500), fixed_cases=opticom_fixed),
+    # quick: about 3.5 CPU-minutes in total (20-25 s wall on 16 idle cores); the budgets only cut in on a loaded machine
+    Sub("uniform_direct", uniform_direct_strategy, run_uniform_direct, dict(quick=1600, thorough=8000),
+        budget_s=dict(quick=25, thorough=150), fixed_cases=uniform_direct_fixed),
+    Sub("dimwise_direct", dimwise_direct_strategy, run_dimwise_direct, dict(quick=1600, thorough=16000),
+        budget_s=dict(quick=15, thorough=100), fixed_cases=dimwise_direct_fixed),
+    Sub("train", train_strategy, run_train, dict(quick=1600, thorough=16000),
+        budget_s=dict(quick=15, thorough=100), fixed_cases=train_fixed),
+    Sub("train_sa", train_sa_strategy, run_train_sa, dict(quick=800, thorough=6000),
+        budget_s=dict(quick=20, thorough=120), fixed_cases=train_sa_fixed),
+    Sub("opticom", opticom_strategy, run_opticom, dict(quick=800, thorough=6000),
+        budget_s=dict(quick=20, thorough=120), fixed_cases=opticom_fixed),
 ]
